@@ -266,8 +266,9 @@ type ObjObs struct {
 type BranchObs struct {
 	Name   int      `json:"name"`
 	Tip    int      `json:"tip"`
-	Status string   `json:"status"` // ok or an error class
-	Objs   []ObjObs `json:"objs"`   // sorted by id
+	Status string   `json:"status"`           // ok or an error class
+	Objs   []ObjObs `json:"objs"`             // sorted by id
+	Lister []int    `json:"lister,omitempty"` // object ids in the order of the :objects meta query
 	Scan   []int    `json:"scan"`
 }
 
